@@ -18,6 +18,7 @@ import (
 	"fmt"
 	"os"
 	"path/filepath"
+	"strings"
 	"time"
 
 	"oras.land/oras-go/v2/verifharness/copymon"
@@ -54,7 +55,13 @@ func runCase(phase string, i int) worker.Result {
 	seed := evidence.Seed()
 	rng := evidence.RandFor(seed, "c01-"+phase, i)
 	ctx := context.Background()
-	c := copymon.GenCase(rng, copymon.GenOpts{MaxNodes: map[string]int{"quick": 40, "thorough": 120}[evidence.Tier()], MaxDelay: 300 * time.Microsecond, ManifestAsBlob: true, TitleClash: true, RaceWriter: true, Trees: true})
+	c := copymon.GenCase(rng, copymon.GenOpts{MaxNodes: map[string]int{"quick": 40, "thorough": 120}[evidence.Tier()], MaxDelay: 300 * time.Microsecond, ManifestAsBlob: true, TitleClash: true, RaceWriter: true, Trees: true, StaleFiles: true, FullNameRef: true})
+	if c.StaleFiles {
+		res.Count("cases_with_longer_files_already_at_titled_names", 1)
+	}
+	if strings.Contains(c.SrcRef, "/") {
+		res.Count("cases_with_full_image_name_as_source_reference", 1)
+	}
 	if c.G.HasTrees() {
 		res.Count("cases_with_custom_FindSuccessors_over_tree_nodes", 1)
 	}
